@@ -10,7 +10,7 @@ from checks import utfcommon as uc
 
 # (kind, number of first-unit shards, first-unit index range)
 def gen_jobs(tier):
-    jobs = [("u8x1", [(0, 0)]), ("u8long", [(0, 0)])]
+    jobs = [("u8x1", [(0, 0)]), ("u8long", [(0, 0)]), ("u8pair", [(0, 0)])]
     if tier == "quick":
         jobs += [("u8r2", [(1, 31)]), ("u8o3", [(1, 17)]), ("u8c4", [(k, k) for k in uc.pick(range(5, 18), 1)]),
                  ("u16", [(k, k) for k in sorted(set(uc.pick(range(1, 16), 2) + [7, 9]))]),
